@@ -102,6 +102,27 @@ Fn1 gen_fn(Src& s, bool gentle, int force_family = -1)
 }
 }	// namespace
 
+namespace
+{
+// Textbook adaptive Simpson exactly as the named method documents it: tolerance 1e-9 times the three-point estimate, halved per level, 20 levels,
+// Richardson-corrected leaves. Accumulated in long double. It is the reference for WHERE that algorithm ends early (finding K3), not for the value.
+long double model_simpson_rec(const std::function<double(double)>& f, double a, double b, long double eps, long double S, long double fa, long double fb, long double fc, int bottom)
+{
+	double cm = (a + b) / 2, d = (a + cm) / 2, e = (b + cm) / 2;
+	long double h = (long double) b - a, fd = f(d), fe = f(e);
+	long double Sl = (h / 12) * (fa + 4 * fd + fc), Sr = (h / 12) * (fc + 4 * fe + fb), S2 = Sl + Sr;
+	if(bottom <= 0 || fabsl(S2 - S) <= 15 * eps)
+		return S2 + (S2 - S) / 15;
+	return model_simpson_rec(f, a, cm, eps / 2, Sl, fa, fc, fd, bottom - 1) + model_simpson_rec(f, cm, b, eps / 2, Sr, fc, fb, fe, bottom - 1);
+}
+long double model_simpson(const std::function<double(double)>& f, double a, double b)
+{
+	double cm = (a + b) / 2;
+	long double h = (long double) b - a, fa = f(a), fb = f(b), fc = f(cm), S = (h / 6) * (fa + 4 * fc + fb);
+	return model_simpson_rec(f, a, b, fabsl(1e-9L * S), S, fa, fb, fc, 20);
+}
+}	// namespace
+
 VCLAUSE(methods_1d, 60, 12000, 250000, "limits reversed, or an explicit method_parameter, or the integrand changes sign")
 {
 	Src& s = c.s;
@@ -149,8 +170,22 @@ VCLAUSE(methods_1d, 60, 12000, 250000, "limits reversed, or an explicit method_p
 	}
 	else if(m == "Adaptive-Simpson" && !F.simpson_regular)
 	{
-		rel = 1e-7;	  // outside the estimator-regular class only a dispatch sanity bound (C03 promises 4 epsilon there at best)
-		nm	= "adaptive_simpson_dispatch_1e-7";
+		// Finding K3: adaptive Simpson ends its recursion wherever the two Simpson estimates of a panel agree by accident, however wrong both
+		// are (1/(1+t^2) on [-0.32,3.17] widths: 2.7e-7 instead of 1e-9). Whether that happens is a property of the algorithm on the given
+		// integrand and interval, so the matcher is the textbook algorithm itself: where IT meets 1e-9 (with a factor two to spare) the library
+		// must meet 1e-9 as stated; where it does not, the case is excluded (counted) and the library must at least not be worse than it.
+		long double model = model_simpson(F.f, F.a, F.b) * (rev ? -1 : 1);
+		double err_model  = (double) fabsl(model - exact), tol9 = 1e-9 * (double) F.abs_integral;
+		if(err_model > 0.5 * tol9 && finding_open("K3"))
+		{
+			c.known("K3");
+			c.cls("adaptive_simpson_estimator_coincidence");
+			VCLOSE(c, "adaptive_simpson_no_worse_than_textbook", v, (double) exact, 1.05 * err_model + 1e-12 * (double) F.abs_integral,
+				   "Adaptive-Simpson on " << F.desc << ": excluded from the 1e-9 claim by finding K3 (textbook error " << err_model << "), but the library must not be worse than the textbook algorithm");
+			return;
+		}
+		rel = 1e-9;
+		nm	= "adaptive_simpson_1e-9_outside_regular_class";
 	}
 	else
 	{
@@ -280,11 +315,30 @@ VCLAUSE(nested_2d_3d, 60, 3000, 60000, "at least one axis has reversed limits, o
 		exact *= exact1(k);
 		mag *= fabsl(exact1(k));
 	}
-	double rel = (m == "Trapezoidal") ? 1e-6 : (m == "Adaptive-Simpson" ? 1e-7 : 1e-9);
+	double rel = (m == "Trapezoidal") ? 1e-6 : 1e-9;
+	bool k3 = false;
+	if(m == "Adaptive-Simpson")
+	{
+		// K3 (see methods_1d): the nested integral of a separable integrand inherits the coincidences of its one-dimensional factors
+		for(int k = 0; k < nd; k++)
+		{
+			std::function<double(double)> fk = [&](double x) { return fac(k, x); };
+			long double mk = model_simpson(fk, lo[k], hi[k]) * (rv[k] ? -1 : 1);
+			if(fabsl(mk - exact1(k)) > 0.3e-9L * fabsl(exact1(k)))
+				k3 = true;
+		}
+		k3 = k3 && finding_open("K3");
+		if(k3)
+		{
+			c.known("K3");
+			rel = 1e-6;	  // sanity only
+		}
+	}
 	if(!product_only)
 		VCLOSE(c, three ? "separable_3d" : "separable_2d", v, (double) exact, nd * rel * (double) mag, (three ? "Integrate_3D" : "Integrate_2D") << " with " << m << " vs the product of the exact 1D integrals");
-	// for the fixed rules the nested integral of a separable integrand is the product of the same rule's 1D integrals up to rounding
-	if(m == "Gauss-Legendre" || m == "Gauss-Legendre_2")
+	// for the fixed rules - and for adaptive Simpson, whose decisions are invariant under scaling the integrand - the nested integral of a
+	// separable integrand is the product of the same method's 1D integrals up to rounding
+	if(m == "Gauss-Legendre" || m == "Gauss-Legendre_2" || m == "Adaptive-Simpson")
 	{
 		long double prod = 1;
 		for(int k = 0; k < nd; k++)
@@ -293,7 +347,7 @@ VCLAUSE(nested_2d_3d, 60, 3000, 60000, "at least one axis has reversed limits, o
 			VMUST_RETURN("Integrate (1D factor)", i1 = libphysica::Integrate([&](double x) { return fac(k, x); }, L0[k], H0[k], m, par));
 			prod *= i1;
 		}
-		VCLOSE(c, "product_of_library_1d_integrals", v, (double) prod, 1e-12 * std::fabs((double) prod), (three ? "Integrate_3D" : "Integrate_2D") << " with " << m << " (parameter " << par << ") vs the product of the library's own 1D integrals with the same method and parameter");
+		VCLOSE(c, "product_of_library_1d_integrals", v, (double) prod, (m == "Adaptive-Simpson" ? 1e-11 : 1e-12) * std::fabs((double) prod), (three ? "Integrate_3D" : "Integrate_2D") << " with " << m << " (parameter " << par << ") vs the product of the library's own 1D integrals with the same method and parameter");
 	}
 }
 
